@@ -190,7 +190,7 @@ func main() {
 		"defer: defer/panic/recover with named results, runtime panics, 1/2 ending in an uncaught panic (user, nil map, nil pointer, division by zero); composite: structs, methods, interfaces, maps, slices, arrays, type switch; "+
 		"mini: the statement language of the Coq model) + untyped constant expressions; each evaluated in 128 interpreters = every subset of {OptDebugger, OptCollectDeclarations, OptCollectStatements, OptTrapPanic, OptPanicStackTrace, OptKeepUntyped} x GENERICS {NONE, V2_CTI} through Interp.ParseEvalPrint; "+
 		"one evaluated case = one (program, configuration); non-trivial when the program produced >= 1 emit or a panic; distinct by SHA-256 of program text + configuration")
-	nProg, nConst := 91, 80
+	nProg, nConst := 63, 60
 	if a.Thorough() {
 		nProg, nConst = 1400, 2000
 	}
